@@ -20,6 +20,7 @@ import Ipv8.Base.Proto
 import Ipv8.C02.Tables
 import Ipv8.C02.OldPayloads
 import Ipv8.C02.Dataclass
+import Ipv8.C02.Registry
 open Ipv8 Ipv8.C02 Ipv8.Proto
 
 abbrev P := List Char
@@ -210,6 +211,33 @@ def parseFmt (s : String) : Option Fmt :=
     | some (f, []) => some f
     | _ => none
 
+/-! ### printing formats (same syntax as accepted by `parseFmt`) -/
+
+def showSField : SField → String
+  | .uint w => s!"u{w}" | .sint w => s!"i{w}" | .bool => "b" | .char => "c" | .fixed n => s!"x{n}" | .float w => s!"f{w}"
+
+mutual
+def showFmt : Fmt → String
+  | .struct fs => "S[" ++ ",".intercalate (fs.map showSField) ++ "]"
+  | .bits => "bits" | .ipv4 => "ipv4" | .raw => "raw" | .node => "node"
+  | .address ipOnly => if ipOnly then "addr1" else "addr0"
+  | .varlen lw b => s!"V{lw}:{b}"
+  | .varlenUtf8 lw b => s!"U{lw}:{b}"
+  | .listOf lw f => s!"L{lw}(" ++ showFmt f ++ ")"
+  | .array lw k => s!"A{lw}" ++ (match k with | .bool => "b" | .q => "q" | .d => "d")
+  | .nested fs => "P(" ++ ",".intercalate (showFmts fs) ++ ")"
+  | .flags w => s!"F{w}"
+def showFmts : FmtList → List String
+  | .nil => []
+  | .cons f fs => showFmt f :: showFmts fs
+end
+
+/-- the default table of a fresh `Serializer()`: the generated registry without the names the shipped overlays add -/
+def defaultTable (exclude : List String) : Reg.Table :=
+  Gen.packers.filterMap (fun e => match e.2 with
+    | .fmt f => if exclude.contains e.1 then none else some (e.1, f)
+    | _ => none)
+
 /-! ### requests -/
 
 def showRes (r : Except Err (Val × Nat)) : String :=
@@ -332,6 +360,23 @@ def step (_ : Unit) (toks : List String) : Unit × String :=
         let l := Dc.lookupNames parent st fuel c
         if l.isEmpty then "-" else ".".intercalate l)
       some (res ++ ";" ++ "|".intercalate shown)
+    | ["old", cls, "init", v] => do
+      let v ← parseVal v
+      match v with
+      | .record args => some ("ok " ++ showVal (.record (ValList.ofList (Old.init cls args.toList))))
+      | _ => none
+    | ["reg", excl, overlays, k, name] => do
+      let exclude := if excl == "-" then [] else splitChar excl ','
+      let regss ← (splitChar overlays '|').mapM (fun o =>
+        if o == "-" then some [] else (splitChar o '&').mapM (fun r =>
+          match splitChar r '=' with
+          | [n, f] => (parseFmt f).map (fun f => (n, f))
+          | _ => none))
+      let w := Reg.run (defaultTable exclude) regss
+      let id ← if k == "d" then some 0 else k.toNat?.map (· + 1)
+      some (match Reg.lookup (w.tbl id) name with
+        | some f => showFmt f
+        | none => "none")
     | ["dccont", k] => do
       let c ← Dc.Container.ofString k
       some (Dc.decodedContainer c).toString
